@@ -116,6 +116,7 @@ def get_use_tree(
         if use_dict_mod is not None:
             old_len = len(use_dict_mod.only_list)
             old_names = set(use_dict_mod.rename_map)
+            old_hidden = set(getattr(use_dict_mod, "hidden", ()))
             if old_len > 0 and merged_use_list:
                 for only_name in merged_use_list:
                     use_dict_mod.only_list.add(only_name)
@@ -152,10 +153,14 @@ def get_use_tree(
                 )
             # Skip if we have already visited module with the same only list,
             # unless this USE brings local names (renames) that the modules
-            # further down, which may hold the renamed entity, have not seen
-            if old_len == len(
-                use_dict[use_stmnt.mod_name].only_list
-            ) and old_names.issuperset(merged_rename):
+            # further down, which may hold the renamed entity, have not seen,
+            # or makes a name accessible that the earlier path had hidden
+            if (
+                old_len == len(use_dict[use_stmnt.mod_name].only_list)
+                and old_names.issuperset(merged_rename)
+                and old_hidden
+                == set(getattr(use_dict[use_stmnt.mod_name], "hidden", ()))
+            ):
                 continue
         else:
             if type(use_stmnt) is Use:
